@@ -603,3 +603,6 @@ PROPS["C02"]["functions"] += [WB + "::write_buffer_worker"]
 PROPS["C18"]["functions"] += [WB + "::write_buffer_worker"]
 PROPS["C02"]["outside"] = "crash images as executions, fsync placement inside DiskIO (C03/C09 io protocol obligations)"
 PROPS["C01"]["level_text"] += " Shared with C14: the hashed and the ordered index move together at all 11 hash-table mutation sites (range queries and point reads see the same keys)."
+PROPS["C07"]["level_text"] += (" insert_if_absent: test and creation under ONE entry guard; Ok(true) exactly on the paths that created the entry in the Vacant arm, Ok(false) exactly in the Occupied arm with no effect at all – "
+                               "so, given the guard's mutual exclusion, exactly one of several racing callers wins.")
+PROPS["C07"]["functions"] += ["src/core/store/atomic.rs::insert_if_absent"]
